@@ -15,6 +15,8 @@ pub mod c19;
 #[cfg(kani)]
 pub mod c18;
 #[cfg(kani)]
+pub mod c18s;
+#[cfg(kani)]
 pub mod c11;
 #[cfg(kani)]
 pub mod c10;
